@@ -3,14 +3,17 @@ package checks
 import (
 	"bytes"
 	"crypto/ecdh"
+	crand "crypto/rand"
 	"encoding/json"
 	"fmt"
+	"io"
 	"math/big"
 	"net"
 	"strings"
 	"time"
 
 	"github.com/brutella/hc/db"
+	"github.com/brutella/hc/hap/pair"
 
 	"verif/internal/fw"
 	"verif/internal/refctl"
@@ -85,6 +88,48 @@ func c04Exponent(kind string, salt, B []byte, code string) ([]byte, bool) {
 	return nil, false
 }
 
+// detStream is a deterministic replacement for crypto/rand.Reader used to steer the accessory's SRP value B.
+type detStream struct {
+	seed int
+	n    uint64
+}
+
+func (d *detStream) Read(p []byte) (int, error) {
+	for i := range p {
+		d.n++
+		x := d.n*0x9E3779B97F4A7C15 + uint64(d.seed)*0xD1B54A32D192ED03
+		x ^= x >> 29
+		x *= 0xBF58476D1CE4E5B9
+		x ^= x >> 32
+		p[i] = byte(x)
+	}
+	return len(p), nil
+}
+
+var c04BSeed = map[string]int{}
+
+// c04FindBSeed searches (deterministically) a random stream under which the accessory's SRP session for code
+// gets a public value B with a leading zero byte. It uses hc's own session constructor, exactly as the
+// pair-setup endpoint does on the first start request of a connection.
+func c04FindBSeed(code string) (int, bool) {
+	if s, ok := c04BSeed[code]; ok {
+		return s, true
+	}
+	saved := crand.Reader
+	defer func() { crand.Reader = saved }()
+	for seed := 1; seed < 3000; seed++ {
+		crand.Reader = &detStream{seed: seed}
+		sess, err := pair.NewSetupServerSession("x", code)
+		if err == nil && len(sess.PublicKey) < 384 {
+			c04BSeed[code] = seed
+			return seed, true
+		}
+	}
+	return 0, false
+}
+
+var _ io.Reader = &detStream{}
+
 func c04Exec(c *fw.Ctx, cell c04Cell) {
 	c.Eval(1)
 	name := fmt.Sprintf("pin=%s id=%s key=%s eph=%s srp=%s restart=%v req=%d wrong=%v same=%v", cell.Pin, cell.IDKind, cell.KeySeed, cell.EphSeed, cell.SRP, cell.Restart, cell.ReqSize, cell.WrongPin, cell.SameConn)
@@ -127,6 +172,16 @@ func c04Exec(c *fw.Ctx, cell c04Cell) {
 		}
 		return m.Body, true
 	}
+	if cell.SRP == "B-leading-zero" {
+		seed, found := c04FindBSeed(code)
+		if !found {
+			c.Infra("no random stream found that gives B a leading zero")
+			return
+		}
+		saved := crand.Reader
+		crand.Reader = &detStream{seed: seed}
+		defer func() { crand.Reader = saved }()
+	}
 	body, ok := post(refctl.SetupM1())
 	if !ok {
 		return
@@ -135,10 +190,13 @@ func c04Exec(c *fw.Ctx, cell c04Cell) {
 		fail("M2", err.Error())
 		return
 	}
-	if cell.SRP == "B-leading-zero" && len(s.B) == 384 {
-		// this cell needs an accessory public value with a leading zero byte: retry with fresh systems (B is random)
-		c.Eval(-1)
-		return
+	if cell.SRP == "B-leading-zero" {
+		if len(s.B) == 384 {
+			c.Note("B-leading-zero cell: steering crypto/rand.Reader did not produce a short B (cell not exercised)")
+			c.Eval(-1)
+			return
+		}
+		c.Extra("cells_with_short_B", 1)
 	}
 	a, found := c04Exponent(strings.TrimPrefix(cell.SRP, "B-leading-zero"), s.Salt, s.B, code)
 	if !found {
@@ -167,7 +225,7 @@ func c04Exec(c *fw.Ctx, cell c04Cell) {
 			fail("wrong-code-stored", "a failed pair-setup changed the stored pairings")
 			return
 		}
-		c.Class("wrong-code-rejected")
+		c.Class("wrong-code-rejected: " + name)
 		return
 	}
 	if ec != 0 {
@@ -263,7 +321,7 @@ func c04Exec(c *fw.Ctx, cell c04Cell) {
 		fail("panic", "handler panic during a correct exchange: "+p[0])
 		return
 	}
-	c.Class(fmt.Sprintf("ok:id=%s,srp=%s,restart=%v,req=%d,same=%v", cell.IDKind, cell.SRP, cell.Restart, cell.ReqSize, cell.SameConn))
+	c.Class("ok: " + name)
 }
 
 func c04Cells(thorough bool) []c04Cell {
@@ -332,16 +390,12 @@ func c04Run(c *fw.Ctx) {
 		}
 		c04Exec(c, cell)
 	}
-	// the B-leading-zero cell: B is drawn by the accessory; fresh systems are tried until one occurs (bounded)
-	tries := 40
-	if c.Thorough() {
-		tries = 120
-	}
-	for t := 0; t < tries; t++ {
-		if !c.Mine(len(cells) + t) {
-			continue
-		}
+	// the B-leading-zero cell: B is drawn by the accessory from crypto/rand.Reader, which is steered for this cell
+	if c.Mine(len(cells)) {
 		c04Exec(c, c04Cell{Pin: "00102003", IDKind: "uuid", KeySeed: "k1", EphSeed: "e1", SRP: "B-leading-zero"})
+	}
+	if c.Thorough() && c.Mine(len(cells)+1) {
+		c04Exec(c, c04Cell{Pin: "99999998", IDKind: "utf8", KeySeed: "k2", EphSeed: "highbit", SRP: "B-leading-zero", Restart: true})
 	}
 }
 
@@ -349,7 +403,7 @@ func init() {
 	fw.Register(&fw.Check{
 		ID:    "C04",
 		Level: "exploration",
-		Rule:  "an independent controller (internal/refctl, no hc import) runs pair-setup, pair-verify and encrypted requests against the real transport for every cell of an explicit input-partition grid: 9 setup codes (default, extremes, adjacent to every trivial code) × controller identifiers {UUID, 1 byte, 63, 64 bytes, multi-byte UTF-8} × 3 Ed25519 identities × X25519 keys incl. one with the high bit set × request sizes {small, 1023, 1024, 1025, 2048, 2049, 4097 bytes} × {fresh, restarted} accessory × {same, new} connection, plus one cell per code-visible shortcut: SRP A and S with a leading zero byte (found by deterministic search), accessory B with a leading zero byte (fresh systems until it occurs), wrong setup code (must give TLV error 2, store unchanged). quick: one-factor-at-a-time around the base cell; thorough: cross product of the small dimensions. The controller verifies every proof/signature/key the accessory produces. distinct_nontrivial = distinct cells completed",
+		Rule:  "an independent controller (internal/refctl, no hc import) runs pair-setup, pair-verify and encrypted requests against the real transport for every cell of an explicit input-partition grid: 9 setup codes (default, extremes, adjacent to every trivial code) × controller identifiers {UUID, 1 byte, 63, 64 bytes, multi-byte UTF-8} × 3 Ed25519 identities × X25519 keys incl. one with the high bit set × request sizes {small, 1023, 1024, 1025, 2048, 2049, 4097 bytes} × {fresh, restarted} accessory × {same, new} connection, plus one cell per code-visible shortcut: SRP A and S with a leading zero byte (found by deterministic search), accessory B with a leading zero byte (crypto/rand.Reader steered to a stream found by deterministic search), wrong setup code (must give TLV error 2, store unchanged). quick: one-factor-at-a-time around the base cell; thorough: cross product of the small dimensions. The controller verifies every proof/signature/key the accessory produces. distinct_nontrivial = distinct cells completed",
 		Run:   c04Run,
 		Replay: func(c *fw.Ctx, raw json.RawMessage) {
 			var cell c04Cell
